@@ -335,10 +335,12 @@ def _pair_rules(out, facts, c, p):
 
 
 ALLOWED_REJECT = [
-    r"paseto::Paseto::<'a, Version, Purpose>::parse_raw_token$", r"AuthenticationKey<.*>>::try_from$", r"EncryptionKey<.*>>::try_from$",
-    r"cipher_text::CipherText<.*>>::(try_verify|try_decrypt_from)$", r"^core::str::converts::from_utf8$", r"^alloc::string::String::from_utf8$",
-    r"^core::convert::TryFrom::try_from$", r"^ed25519_dalek::verifying::VerifyingKey::from_bytes$", r"^elliptic_curve::public_key::PublicKey::<C>::from_sec1_bytes$",
-    r"^ecdsa::verifying::VerifyingKey::<C>::from_sec1_bytes$", r"^chacha20poly1305::.*new_from_slice$|^crypto_common::KeyInit::new_from_slice$",
+    r"paseto::Paseto::<'a, Version, Purpose>::parse_raw_token$",   # format / header / footer gates (C05.R1, C07.R1)
+    r"^core::str::converts::from_utf8$", r"^alloc::string::String::from_utf8$",
+    r"^core::convert::TryFrom::try_from$", r"^core::convert::TryInto::try_into$", r"^ed25519_dalek::verifying::VerifyingKey::from_bytes$", r"^elliptic_curve::public_key::PublicKey::<C>::from_sec1_bytes$",
+    r"^ecdsa::verifying::VerifyingKey::<C>::from_sec1_bytes$", r"^crypto_common::KeyInit::new_from_slice$", r"^digest::mac::Mac::new_from_slice$",
+    r"^ring::hkdf::Prk::expand$", r"^ring::hkdf::Okm::<'., L>::fill$",
+    r"^core::num::<impl usize>::checked_(add|sub)$",   # length arithmetic of the minimal-length guard written with checked ops
 ] + [p for p, _, _ in S.AUTH_PRIMS]
 
 
@@ -348,12 +350,20 @@ def _reject_inventory(out, facts, c, guard_blocks):
     V, P = c.e.vp
     rl = "C01.R8" if P == "Local" else "C02.R6"
     views = [(c.v, c.N, c.e.id)]
-    if c.helper:
-        views.append((M.view(facts, facts.bodies[c.helper]), M.Normalizer(facts, keep=S.KEEP), c.helper))
-    if P == "Local" and V == "V2":
-        for bid, b in facts.bodies.items():
-            if re.search(r"CipherText<crate::core::version::v2::V2, crate::core::purpose::local::Local>>::try_decrypt_from$", bid):
-                views.append((M.view(facts, b), M.Normalizer(facts, keep=S.KEEP), bid))
+    # crate-local fallible helpers whose error is propagated with `?` are inventoried themselves (transitively, bounded)
+    seen_h = {c.e.id}
+    i = 0
+    while i < len(views) and len(views) < 12:
+        v0, N0, _w = views[i]
+        i += 1
+        for s2 in M.try_sites(v0):
+            op = S.strip_result_wrappers(N0.norm(s2["operand"]))
+            if op.op == "tryok":
+                op = op.args[0]
+            d = op.meta.get("def") if op.op == "call" else None
+            if d and d in facts.bodies and d not in seen_h and op.meta.get("local") and not re.search(r"parse_raw_token$", d):
+                seen_h.add(d)
+                views.append((M.view(facts, facts.bodies[d]), M.Normalizer(facts, keep=S.KEEP), d))
     for v, N, where in views:
         n = 0
         bad = []
@@ -364,6 +374,8 @@ def _reject_inventory(out, facts, c, guard_blocks):
             td = op.meta.get("tdef", "") if op.op == "call" else M.show(op)[:60]
             dd = op.meta.get("def", "") if op.op == "call" else ""
             n += 1
+            if dd in seen_h and dd != where:
+                continue   # crate-local helper: inventoried on its own body
             if not any(re.search(p, td) or re.search(p, dd) for p in ALLOWED_REJECT):
                 bad.append(("`?` on " + M.short(td), s2["ln"]))
         for d in v.defs.get(0, []):
@@ -415,7 +427,7 @@ def _kdf_agreement(out, facts, c, p):
        desc="%s.local: CipherText::from used both ways with the same derived key" % V.lower())
     # R5: the producer's tag is Tag::from(Ak, PAE) and the consumer compares with Tag::from(Ak', PAE')
     for side in (c, p):
-        tc = _calls_in(side, r"tag::Tag<.*>>::from")
+        tc = _calls_in(side, r"tag::Tag<.*>>::(from|try_from|new|try_new)(::<.*>)?$")
         okt = len(tc) == 1 and len(tc[0][2].args) == 2 and tc[0][2].args[0].op in ("call", "tryok") and bool(list(tc[0][2].args[0].calls(r"AuthenticationKey<.*>>::(from|try_from)$")) or re.search(r"AuthenticationKey", M.show(tc[0][2].args[0]))) \
             and tc[0][2].args[1].op == "call" and bool(re.search(r"PreAuthenticationEncoding::parse$", tc[0][2].args[1].name))
         _f(out, "C04.R2", bool(okt), side, "tag keyed by the derived authentication key over the PAE", "Tag::from must receive the derived authentication key and this function's pre-authentication encoding", tc[0][1]["ln"] if tc else side.e.body["line"],
@@ -433,8 +445,10 @@ def _producer_layout(out, facts, p):
     a = t.args
     cls = [p.classify(x)[0] if i < 2 else None for i, x in enumerate(a)]
     n_ok = p.classify(M.T("field", "key", (a[0],)) if a[0].op == "param" else a[0])[0] == "nonce" or (a[0].op == "agg" and "PasetoNonce" in str(a[0].name) and p.classify(M.mk_field(a[0], "key"))[0] == "nonce")
-    c_ok = a[1].op == "call" and bool(re.search(r"CipherText<.*Local>>::from$", a[1].name))
-    t_ok = a[2].op == "call" and bool(re.search(r"tag::Tag<.*>>::from", a[2].name))
+    a1 = a[1].args[0] if a[1].op == "tryok" else a[1]
+    c_ok = a1.op == "call" and bool(re.search(r"CipherText<.*Local>>::(from|try_from)$", a1.name))
+    a2 = a[2].args[0] if a[2].op == "tryok" else a[2]
+    t_ok = a2.op == "call" and bool(re.search(r"tag::Tag<.*>>::(from|try_from|new|try_new)", a2.name))
     _f(out, "C08.R5", bool(n_ok and c_ok and t_ok), p, "payload assembly arguments", "RawPayload must be assembled from (wire nonce, ciphertext, tag); found (%s, %s, %s)" % (M.show(a[0])[:60], M.show(a[1])[:60], M.show(a[2])[:60]), rc[0][1]["ln"],
        desc="%s.local: RawPayload(nonce, ciphertext, tag)" % V.lower())
     # the assembling function writes param1 | param2 | param3 contiguously
@@ -556,7 +570,7 @@ def _min_length_guard(out, facts, c):
     empty message is not rejected; (that it is not smaller either is C09's obligation)."""
     V, P = c.e.vp
     fixed = (NONCE_LEN[V] + TAG_LEN[V]) if (P == "Local" and V != "V2") else (NONCE_LEN[V] + 16 if P == "Local" else SIG_LEN[V])
-    rl = "C01.R1" if P == "Local" else "C02.R1"
+    rl = "C01.R9" if P == "Local" else "C02.R7"
     views = [(c.v, c.N, c.e.id)]
     if c.helper:
         hb = facts.bodies[c.helper]
